@@ -279,8 +279,14 @@ def run(chk):
         ps = oqupy.ParameterizedSystem(lambda x, y: x * SX + y * SZ, gammas=[lambda x, y: 0.05 + 0.1 * y * y],
                                        lindblad_operators=[lambda x, y: oqupy.operators.sigma("-") + 0.2 * x * SZ])
         pt = oqupy.pt_tempo_compute(bb, 0.0, 0.3, parameters=par, progress_type="silent")
+        # a chain whose first site has no single-site term, the second and third have; nearest-neighbour coupling
+        ch = oqupy.SystemChain([2, 2, 2])
+        ch.add_site_hamiltonian(1, 0.4 * SX)
+        ch.add_site_dissipation(2, oqupy.operators.sigma("-"), gamma=0.3)
+        ch.add_nn_hamiltonian(0, 0.5 * SZ, SZ)
+        ch.add_nn_hamiltonian(1, 0.3 * SX, SX)
         return {"bath": bb, "td": td, "mfs": mfs, "ps": ps, "pt": pt, "sys": oqupy.System(H), "par": par,
-                "par2": oqupy.TempoParameters(dt=0.05, epsrel=1e-7, dkmax=2)}
+                "par2": oqupy.TempoParameters(dt=0.05, epsrel=1e-7, dkmax=2), "chain": ch}
 
     def job_run(name, ob):
         st = lambda d: np.array(d.states).reshape(-1)
@@ -309,13 +315,21 @@ def run(chk):
             table = np.array([[0.3 + 0.1 * j * (k + 1), 0.2 - 0.03 * j + 0.1 * k] for j in range(6)])
             g = oqupy.state_gradient(system=ob["ps"], initial_state=rho, target_derivative=SZ.T, process_tensors=[ob["pt"]], parameters=table, progress_type="silent")
             return np.append(np.array(g["gradient"]).reshape(-1), st(g["dynamics"]))
+        if name.startswith("tebd#"):
+            order = int(name[5:])
+            tb = oqupy.PtTebd(oqupy.AugmentedMPS([rho, rho.conj(), rho]), ob["chain"], [None, None, None],
+                              oqupy.PtTebdParameters(dt=0.1, order=order, epsrel=1e-9), dynamics_sites=[0, 1, 2])
+            r = tb.compute(2, progress_type="silent")
+            return np.concatenate([np.array(r["dynamics"][i].states).reshape(-1) for i in range(3)])
+        if name == "chain-generators":
+            return np.concatenate([np.array(x).reshape(-1) for x in ob["chain"].get_nn_full_liouvillians()])
         if name == "tempo-plain":
             return st(oqupy.Tempo(ob["sys"], ob["bath"], ob["par"], rho, 0.0).compute(0.3, progress_type="silent"))
         raise KeyError(name)
 
     JOBS = ["tempo@0.0", "tempo@1.5", "tempo@-0.7", "tempo-dt2@0.0", "tempo-dt2@1.5", "dynamics@0.0", "dynamics@1.5", "dynamics@-0.7",
             "dynamics-nosubdiv@0.0", "dynamics-nosubdiv@1.5", "correlations@0.0", "correlations@1.5", "meanfield@0.0", "meanfield@0.4",
-            "gradient#0", "gradient#1", "tempo-plain"]
+            "gradient#0", "gradient#1", "tempo-plain", "tebd#1", "tebd#2", "chain-generators"]
     fresh_results = {}
     for it in range(5 if thorough else 2):
         shared = quiet(mk_objs)
@@ -324,11 +338,17 @@ def run(chk):
         fam = rng.choice(["tempo@", "dynamics@", "correlations@", "dynamics-nosubdiv@"])
         pair = [j for j in JOBS if j.startswith(fam)][:2]
         rng.shuffle(pair)
-        seq = pair + seq
+        seq = pair + rng.choice([["tebd#1", "tebd#1"], ["chain-generators", "tebd#2"], ["tebd#2", "chain-generators"]]) + seq
+        chain_snapshot = [np.array(x).copy() for x in shared["chain"].nn_liouvillians] + [np.array(x).copy() for x in shared["chain"].site_liouvillians]
         for pos, name in enumerate(seq):
             info = {"kind": "shared-pool", "sequence": seq[:pos + 1], "job": name}
             try:
                 got = quiet(job_run, name, shared)
+                now = [np.array(x) for x in shared["chain"].nn_liouvillians] + [np.array(x) for x in shared["chain"].site_liouvillians]
+                if any(not np.array_equal(a_, b_) for a_, b_ in zip(chain_snapshot, now)):
+                    chk.fail("input-mutated", f"job {name} modified the SystemChain it was given (its stored generators changed by "
+                             f"{max(np.abs(a_ - b_).max() for a_, b_ in zip(chain_snapshot, now)):.3g})", info)
+                    chain_snapshot = [x.copy() for x in now]
                 if name not in fresh_results:
                     fresh_results[name] = quiet(job_run, name, quiet(mk_objs))
             except Exception as ex:
